@@ -214,4 +214,8 @@ class Rotate(Domain):
         domain_bounds[:, ::2] = torch.min(rotated, dim=1)[0]
         domain_bounds[:, 1::2] = torch.max(rotated, dim=1)[0]
         domain_bounds = domain_bounds + translation_values
-        return domain_bounds.squeeze(0)
+        # one box that holds for all given parameters
+        bounds = torch.zeros(2 * self.space.dim, device=device)
+        bounds[::2] = torch.min(domain_bounds[:, ::2], dim=0)[0]
+        bounds[1::2] = torch.max(domain_bounds[:, 1::2], dim=0)[0]
+        return bounds
